@@ -85,6 +85,11 @@ def plan(tier, seed):
                 for io in (False, True):
                     cases.append({"src": fn, "srcfmt": None, "explicit_in": False, "inplace": True, "target": "inplace",
                                   "opts": {"c": False, "m": m, "i": io, "o": io}})
+    # the same input NAME converted again after its content was replaced (a script looping over a scratch file): convert() called
+    # twice in one process must use the content that is there at the time of the call, as the API calls do
+    for t in ("mol2", "pdb", "sdf", "xyz"):
+        for m in (False, True):
+            cases.append({"reuse": ["water.xyz", "s66_4114_02WaterMeOH.xyz", "water_number.xyz"], "target": t, "many": m})
     # numerically pathological but syntactically valid inputs: the CLI's floating-point trapping may turn them into errors
     # (admitted), but never into a reported success with other content
     for name in sorted(pathological_sources()):
@@ -170,7 +175,48 @@ def api_run(src, infmt, out, outfmt, many, allow):
             return type(exc).__name__, exc
 
 
+def case_reuse(case):
+    import iodata
+    from iodata.__main__ import convert
+
+    root = tempfile.mkdtemp(prefix="vf_c18r_")
+    viols = []
+    counters = {"convert_runs": 0, "api_runs": 0, "byte_comparisons": 0, "reuse_cases": 1}
+    try:
+        src = os.path.join(root, "scratch.xyz")
+        for step, fn in enumerate(case["reuse"]):
+            shutil.copy(os.path.join(bootstrap.DATA_DIR, fn), src)
+            out_cv = os.path.join(root, f"cv{step}", go.filename(case["target"], "out"))
+            out_api = os.path.join(root, f"api{step}", go.filename(case["target"], "out"))
+            os.makedirs(os.path.dirname(out_cv))
+            os.makedirs(os.path.dirname(out_api))
+            with warnings.catch_warnings():
+                warnings.simplefilter("ignore")
+                try:
+                    convert(src, out_cv, case["many"], None, None, False)
+                    cv = "ok"
+                except Exception as exc:
+                    cv = type(exc).__name__
+                counters["convert_runs"] += 1
+                api, _exc = api_run(src, None, out_api, None, case["many"], False)
+                counters["api_runs"] += 1
+            b_cv = open(out_cv, "rb").read() if os.path.exists(out_cv) else None
+            b_api = open(out_api, "rb").read() if os.path.exists(out_api) else None
+            counters["byte_comparisons"] += 1
+            if (cv == "ok") != (api == "ok") or (cv == "ok" and b_cv != b_api):
+                viols.append(_v("convert-function-differs", f"step {step} ({fn} copied to scratch.xyz -> {case['target']}{' -m' if case['many'] else ''}): "
+                                f"convert() -> {cv}, API -> {api}, or different bytes ({len(b_cv or b'')} vs {len(b_api or b'')}): a second "
+                                "conversion of the same input name does not use the file's current content"))
+    finally:
+        shutil.rmtree(root, ignore_errors=True)
+    feat = f"reuse:{case['target']}:{'m' if case['many'] else ''}"
+    return {"status": "violation" if viols else "ok", "violations": viols, "features": [feat], "counters": counters,
+            "sample": {"cmd": f"convert(scratch.xyz, out.{case['target']}) x {len(case['reuse'])} with the content replaced in between"}}
+
+
 def run_case(case):
+    if "reuse" in case:
+        return case_reuse(case)
     import iodata
     from iodata.__main__ import convert
 
